@@ -185,11 +185,14 @@ func manyDocs(n int) []m.Doc {
 func init() {
 	register("C07", "model_checking", func(run *ev.Run, tier string) string {
 		tags := own("nonlinearizable", "deadlock", "rawkeys", "count", "indexquery", "id", "panic", "leak", "final", "harness")
-		runRaceBinary(run, tier) // first: cheap, and a data race explains most of what the exploration would then stumble over
+		only := os.Getenv("VERIF_C07_ONLY") // debugging aid: explore only the scenarios whose name starts with this
+		if only == "" {
+			runRaceBinary(run, tier)
+		} // first: cheap, and a data race explains most of what the exploration would then stumble over
 		nScen := 16
 		for _, indexed := range []bool{false, true} {
 			for i, sc := range scenarios(indexed) {
-				if i >= nScen {
+				if i >= nScen || !strings.HasPrefix(sc.Name, only) {
 					continue
 				}
 				for _, b := range []string{drv.BBolt, drv.Badger} {
